@@ -404,7 +404,7 @@ def build_cpp(name, srcs, flags=None, libs=None, mpi=False, shim=False, sanitize
     if sanitize is None and os.environ.get("VERIF_SANITIZE") and (not mpi or os.environ.get("VERIF_SANITIZE_MPI")):
         sanitize = os.environ["VERIF_SANITIZE"]          # C07: rebuild every harness with sanitizers
         name = name + "_" + sanitize
-    if sanitize is None and not any("-fsanitize" in f for f in flags) and os.environ.get("VERIF_NDEBUG", "1") != "0":
+    if sanitize is None and not any("-fsanitize" in f for f in flags) and os.environ.get("VERIF_NDEBUG", "1") != "0" and "VERIF_ASSERTIONS" not in (defines or []):
         # the library's default build type is Release: the plain harness builds define NDEBUG like it does (assert() compiled out); the sanitizer builds
         # (C07's re-execution of every stream, C18's UBSan builds, C03's TSan build) keep the assertions, so both configurations see the same inputs
         base.append("-DNDEBUG")
@@ -441,12 +441,13 @@ def build_many(specs):
 # --------------------------------------------------------------------------------------
 # supported build configurations
 # --------------------------------------------------------------------------------------
-CONFIG_VARIANTS = (("logging", ["VERIF_LOGGING"], "PARMCB_LOGGING=ON"), ("noinv", ["VERIF_NO_INVARIANTS_CHECK"], "PARMCB_INVARIANTS_CHECK=OFF"))
+CONFIG_VARIANTS = (("logging", ["VERIF_LOGGING"], "PARMCB_LOGGING=ON"), ("noinv", ["VERIF_NO_INVARIANTS_CHECK"], "PARMCB_INVARIANTS_CHECK=OFF"),
+                   ("debug", ["VERIF_ASSERTIONS"], "CMAKE_BUILD_TYPE=Debug (NDEBUG not defined: assert() active)"))
 
 
-def config_differential(c, name, srcs, cases, io, judge=None, canon=None, libs=None, shim=False, limit=3000, component=None, judge_all=False):
-    """The project supports the CMake options PARMCB_LOGGING (default OFF) and PARMCB_INVARIANTS_CHECK (default ON).  Rebuild the harness in
-    the two non-default configurations, run (a sample of) the same cases and require the same answers as in the default configuration
+def config_differential(c, name, srcs, cases, io, judge=None, canon=None, libs=None, shim=False, limit=3000, component=None, judge_all=False, flags=None):
+    """The project supports the CMake options PARMCB_LOGGING (default OFF) and PARMCB_INVARIANTS_CHECK (default ON) and any CMAKE_BUILD_TYPE
+    (default Release = NDEBUG; Debug leaves assert() active).  Rebuild the harness in these non-default configurations, run (a sample of) the same cases and require the same answers as in the default configuration
     (`canon` maps an answer to what must agree; default: the whole line).  A different answer is judged against the property text with `judge`
     (case, answer) -> reason | None: failing input found, or correspondence-only."""
     if os.environ.get("VERIF_SANITIZE"):      # C07's sanitizer re-run: the default configuration only
@@ -457,7 +458,7 @@ def config_differential(c, name, srcs, cases, io, judge=None, canon=None, libs=N
         idx = sorted(c.rng.sample(idx, limit))
     stat = c.extra.setdefault("build_configurations", {})
     for tag, defs, descr in CONFIG_VARIANTS:
-        exe, err = build_cpp(name="%s_%s" % (name, tag), srcs=srcs, libs=libs, shim=shim, defines=defs)
+        exe, err = build_cpp(name="%s_%s" % (name, tag), srcs=srcs, libs=libs, shim=shim, defines=defs, flags=flags)
         if exe is None:
             c.violation("harness %s does not compile against the working tree in the supported configuration %s" % (name, descr),
                         {"theorem_or_correspondence": "build of harness %s with %s" % (name, descr), "log": (err or "")[-1500:], "kind": "impl-build"}, False)
